@@ -550,3 +550,14 @@ Fixpoint fz_run (o : frozen) (ops : list fz_op) : list (option exn * bool) :=
 (* RegisterParams.__setattr__ *)
 Definition rp_setattr (read_only : list string) (k : string) : option exn :=
   if mem_str k read_only then Some ReadOnlyError else None.
+
+(* RegisterParams._makeAttributeAndRegister: every call (parent __init__, child __init__, ...) EXTENDS the
+   instance's registries: after the calls, the read-only names are the union of the names of all
+   calls with readOnly=True (first component), the others those of the calls with readOnly=False *)
+Definition rp_register (calls : list (list string * bool)) : list string * list string :=
+  fold_left (fun (reg : list string * list string) (c : list string * bool) =>
+               if snd c then ((fst reg ++ fst c)%list, snd reg) else (fst reg, (snd reg ++ fst c)%list)) calls ([], []).
+
+(* prob.params lists every registered name *)
+Definition rp_params (calls : list (list string * bool)) : list string :=
+  (fst (rp_register calls) ++ snd (rp_register calls))%list.
